@@ -23,9 +23,7 @@ BoolOK(st, bv) ==    \* bv: <<b0, b1>> truth values
   LET val(b, pos) == bv[b + 1] = pos
   IN CASE st.k = "lit" -> val(st.b, st.pos = 1)
        [] st.k = "or" -> val(st.b, st.pos = 1) \/ val(st.b2, st.pos2 = 1)
-       \* exactly one of the distinct operands: a repeated operand counts once (as the reified constructors treat it)
-       [] st.k = "xor" -> IF st.b = st.b2 /\ st.pos = st.pos2 THEN val(st.b, st.pos = 1)
-                          ELSE val(st.b, st.pos = 1) # val(st.b2, st.pos2 = 1)
+       [] st.k = "xor" -> val(st.b, st.pos = 1) # val(st.b2, st.pos2 = 1)     \* (b ^ b is false: every occurrence counts)
        [] OTHER -> TRUE
 \* the arithmetic statements of a program as a set of "alternative sets" (one must be chosen from each), under the
 \* boolean assignment bv
